@@ -31,6 +31,38 @@ Theorem C08_lru_bound_abstract :
 Proof. exact lru_bound. Qed.
 Print Assumptions C08_lru_bound_abstract.
 
+(* The functional half of "memoise": the LRU table refines a plain map.  [sstep] is the specification – the value of
+   the last Set_ of a key since the last Clear.  Whatever the table answers after ANY operation list (recency moves and
+   evictions in between) is that value, never an older one and never another key's; and every key among the `cap` most
+   recently touched ones does answer.  Tied to pylru / MemoryCache by the operation-list correspondence. *)
+Theorem C08_lru_hit_returns_latest_value :
+  forall (K V : Type) (eqb : K -> K -> bool), (forall a b, reflect (a = b) (eqb a b)) ->
+  forall (cap : nat) (ops : list (op K V)) (k : K) (v : V),
+  lookup K V eqb (fold_left (step K V eqb cap) ops []) k = Some v ->
+  fold_left (sstep K V eqb) ops (fun _ => None) k = Some v.
+Proof. exact lru_reads_last_write. Qed.
+Print Assumptions C08_lru_hit_returns_latest_value.
+
+Theorem C08_lru_recent_key_returns_latest_value :
+  forall (K V : Type) (eqb : K -> K -> bool), (forall a b, reflect (a = b) (eqb a b)) ->
+  forall (cap : nat) (ops : list (op K V)) (k : K), cap >= 1 ->
+  In k (firstn cap (fold_left (rstep K V eqb cap) ops [])) ->
+  exists v, lookup K V eqb (fold_left (step K V eqb cap) ops []) k = Some v
+            /\ fold_left (sstep K V eqb) ops (fun _ => None) k = Some v.
+Proof. exact lru_recent_reads_latest. Qed.
+Print Assumptions C08_lru_recent_key_returns_latest_value.
+
+(* non-vacuity: bound 2; key 1 is overwritten and touched, key 2 is evicted by key 3: the table answers 11 for key 1
+   (the later value), nothing for key 2, 30 for key 3 – and the specification agrees wherever the table answers *)
+Example C08_example_latest_value :
+  let ops := [Set_ nat nat 1 10; Set_ nat nat 2 20; Set_ nat nat 1 11; Get nat nat 1; Set_ nat nat 3 30] in
+  let t := fold_left (step nat nat Nat.eqb 2) ops [] in
+  let m := fold_left (sstep nat nat Nat.eqb) ops (fun _ => None) in
+  (lookup nat nat Nat.eqb t 1, lookup nat nat Nat.eqb t 2, lookup nat nat Nat.eqb t 3) = (Some 11, None, Some 30)
+  /\ (m 1, m 2, m 3) = (Some 11, Some 20, Some 30).
+Proof. vm_compute. split; reflexivity. Qed.
+Print Assumptions C08_example_latest_value.
+
 (* The shards of a column cache partition the sorted keys, for every positive integer shard size (a float
    fraction f is first turned into ceil(f * len(keys)), assumed positive for f > 0), and the shard computed for
    a key contains that key. Over the regenerated arithmetic of CachedColumn._get_shard. *)
